@@ -57,16 +57,13 @@ def a1(ctx, rid):
     if not pushes:
         raise core.AnchorLost('IndexStruct::push')
     for f in pushes:
-        inserts = []
-        for c in f.calls:
-            if c.name == 'insert' and (c.path.startswith('std::vec::Vec') or c.path.startswith('std::collections::BTreeMap') or c.path.startswith('std::collections::btree')):
-                inserts.append(c)
+        inserts = prims.header_insert_sites(prog, f)
         regs = [c for c in f.calls if c.name == 'register_record_allocation']
         if len(inserts) < 2:
             raise core.AnchorLost('insert sites in push: %d' % len(inserts))
         exits = [bb for (bb, k, _) in core.exit_defs(f) if k in ('ok', 'fwd', 'val') and bb in f.reachable()]
-        for c in inserts:
-            key = 'count-on-insert|%s|%s' % (f.id, c.path.split('::')[2] if len(c.path.split('::')) > 2 else c.name)
+        for (c, ikind) in inserts:
+            key = 'count-on-insert|%s|%s' % (f.id, {'vec': 'vec', 'map': 'collections'}[ikind])
             reach = f.reach_from([c.t['t']], avoid_exit=[r.bb for r in regs])
             if any(e in reach for e in exits):
                 ctx.bad(rid, key, c.where(), 'a header is inserted into the in-memory index on a path that does not register it in the record count')
@@ -195,7 +192,7 @@ def a3(ctx, rid):
                 ctx.ok(rid, key, c.where(), 'read', nontrivial=False)
                 continue
             root = prog.fns[prog.fns[f.id].root]
-            excl = root.argc >= 1 and root.locals[1]['s'].startswith('&mut storage::core::Storage<')
+            excl = core.runs_exclusive(prog, root.id)
             if c.name == 'store' and excl:
                 ctx.ok(rid, key, c.where(), 'stored during exclusive initialisation')
             else:
